@@ -59,8 +59,41 @@ def battery():
         ('precise_inst_ht', lambda: sv.precise_inst_ht(va, 0.2, 0.5)), ('first_vel_corrn', lambda: sv.first_vel_corrn(1000.0, (281.0, 79.0), 20.0, 1010.0, 50.0)),
         ('add', lambda: vars(gc.itrf2014_to_gda2020 + d2)), ('neg', lambda: vars(-gc.itrf2008_to_gda94)),
     ]
-    mut = {'V': V, 'col': col, 'va': va}
+    # ellipsoids that share the inverse flattening but not the semi-major axis, and same-labelled parameter sets: results must not
+    # depend on which of them was used first
+    for nm, (sa, sf) in (('ANS', (6378160.0, 298.25)), ('NWL9D', (6378145.0, 298.25)), ('K300a', (6400000.0, 300.0)), ('K300b', (6300000.0, 300.0))):
+        e_ = gc.Ellipsoid(sa, sf)
+        calls += [('rect_radius %s' % nm, (lambda e=e_: cv.rect_radius(e))), ('geo2grid %s' % nm, (lambda e=e_: cv.geo2grid(-33.5, 151.2, 0, e))),
+                  ('grid2geo %s' % nm, (lambda e=e_: cv.grid2geo(56, 300000.0, 6250000.0, 'south', e))),
+                  ('vincinv %s' % nm, (lambda e=e_: gd.vincinv(-33.0, 151.0, -34.0, 150.0, e))), ('llh2xyz %s' % nm, (lambda e=e_: cv.llh2xyz(-33.5, 151.2, 10.0, e)))]
+    Z = np.zeros((3, 3))
+    calls += [('relative_error fixed station', lambda: gs.relative_error(-33.0, 151.0, Z, V * 2, Z)), ('vcv_cart2local null', lambda: gs.vcv_cart2local(Z, -33.0, 151.0).tolist()),
+              ('relative_error fixed station again', lambda: gs.relative_error(-33.0, 151.0, Z, V * 2, Z))]
+    mut = {'V': V, 'col': col, 'va': va, 'Z': Z}
     return calls, mut
+
+
+def _digest(v):
+    import hashlib
+    return hashlib.sha1(repr(snap(v)).encode()).hexdigest()
+
+
+def _digest_call(f):
+    try:
+        return _digest(f())
+    except Exception as ex:  # noqa
+        return 'raised %s' % type(ex).__name__
+
+
+def _fresh_process_results(reverse):
+    """the battery evaluated once, in a fresh interpreter, in the given order: {name: digest of the result}"""
+    import json, os, subprocess, sys
+    code = ('import sys, json; sys.path[:0] = json.loads(sys.argv[1]); from oracles import c09; calls, mut = c09.battery(); '
+            'calls = calls[::-1] if sys.argv[2] == "1" else calls; print(json.dumps({n: c09._digest_call(f) for n, f in calls}))')
+    p = subprocess.run([sys.executable, '-c', code, json.dumps(sys.path), '1' if reverse else '0'], capture_output=True, text=True, timeout=600)
+    if p.returncode != 0:
+        raise RuntimeError('battery child failed: %s' % p.stderr[-300:])
+    return json.loads(p.stdout.strip().splitlines()[-1])
 
 
 def purity(a):
@@ -68,13 +101,18 @@ def purity(a):
     calls, mut = battery()
     before_const = module_snapshot()
     before_args = snap(mut)
+    def ev(fn):
+        try:
+            return snap(fn())
+        except Exception as ex:  # noqa - an exception is an outcome too (it must then be the outcome every time)
+            return ('raised', type(ex).__name__, str(ex)[:80])
     first = {}
     for name, fn in calls:
-        first[name] = snap(fn())
+        first[name] = ev(fn)
     for rnd in range(2):
         order = calls[::-1] if rnd == 0 else calls
         for name, fn in order:
-            r = snap(fn())
+            r = ev(fn)
             if r != first[name]:
                 msgs.append('%s returns a different result when repeated after other calls' % name)
     after_const = module_snapshot()
@@ -83,5 +121,12 @@ def purity(a):
         msgs.append('module-level state / constants changed: %s' % ch[:5])
     if snap(mut) != before_args:
         msgs.append('an argument supplied by the caller was modified')
-    # fresh process order dependence: evaluate same-labelled AGD sets in another order and compare with the formula-independent first results
+    # order dependence: the battery in a fresh interpreter, forwards and backwards - every call must give the same result in both
+    try:
+        fw, bw = _fresh_process_results(False), _fresh_process_results(True)
+        for name in fw:
+            if fw[name] != bw.get(name):
+                msgs.append('%s returns a different result depending on the calls made before it (fresh process, reversed call order)' % name)
+    except Exception as ex:  # noqa
+        msgs.append('order-dependence battery could not run: %s' % ex)
     return bool(msgs), '; '.join(sorted(set(msgs))[:4]) if msgs else 'no state change, arguments intact, repeated results identical'
